@@ -424,6 +424,24 @@ var c06Deviations = []deviation{
 	{"conditions_notonorafter_unparseable", func(rng *rand.Rand, c *ssoCase) {
 		addConditions(rng, c, "", badTimestamps[rng.Intn(len(badTimestamps))])
 	}},
+	{"issuer_reads_differently_in_the_declared_encoding", func(rng *rand.Rand, c *ssoCase) {
+		// the registered entity ID has letters beyond ASCII; the request carries its UTF-8 bytes in a document that
+		// declares a single-byte encoding, in which these bytes are other characters: the Issuer the document states is
+		// not registered (a decoder that cannot read the declared encoding refuses the document, which is as good)
+		id := "https://caf\u00e9-" + randHex(rng, 3) + ".example.com/metadata/z\u00fcrich"
+		c.SPD.EntityID = id
+		c.SPD.AuthnRequestsSigned, c.Want, c.Signed = "", "", false
+		if n := issuerNode(c); n != nil {
+			n.Text = id
+		}
+		enc := []string{"ISO-8859-1", "iso-8859-1", "latin1", "windows-1252", "US-ASCII", "ISO-8859-15"}[rng.Intn(6)]
+		c.PostEdit = func(x string) string {
+			if strings.HasPrefix(x, "<?xml") {
+				x = x[strings.Index(x, "?>")+2:]
+			}
+			return `<?xml version="1.0" encoding="` + enc + `"?>` + x
+		}
+	}},
 	{"wrong_root", func(rng *rand.Rand, c *ssoCase) {
 		if c.Node == nil {
 			c.Node = c.Req.Node()
